@@ -34,6 +34,25 @@ HAND = [
 ]
 
 
+def literal_operand_programs():
+    """every operator with an unsuffixed literal operand (0, 1, 2, a larger one) on every integer type, in both
+    operand positions: the literal's own width (32 bits when unsuffixed) must never leak into the result"""
+    out = []
+    for t in ["u8", "i8", "u16", "i16", "u32", "i32", "u64", "i64", "usize"]:
+        for op in ["+", "-", "*", "/", "%", "&", "|", "^"]:
+            for lit in ["0", "1", "2", "7"]:
+                if op in "/%" and lit == "0":
+                    continue
+                out.append(f"pub fn main(x: {t}) -> {t} {{ x {op} {lit} }}")
+                out.append(f"pub fn main(x: {t}) -> {t} {{ {lit} {op} x }}")
+        for op in ["<", ">", "==", "!="]:
+            out.append(f"pub fn main(x: {t}) -> bool {{ x {op} 1 }}")
+        out.append(f"pub fn main(x: {t}) -> ({t}, {t}) {{ (x * 0, 0 * x) }}")
+        out.append(f"pub fn main(x: {t}, c: bool) -> {t} {{ if c {{ x * 0 }} else {{ 1 }} }}")
+        out.append(f"pub fn main(x: {t}) -> [{t}; 2] {{ [x * 0, 3] }}")
+    return out
+
+
 def run(ck):
     quick = ck.tier == "quick"
     ck.prepare("C05")
@@ -43,6 +62,10 @@ def run(ck):
     n = 300 if quick else 8000
     annotated = PC.generated_sources(ck, n)
     sources = [("hand%d" % i, s) for i, s in enumerate(HAND)]
+    lits = literal_operand_programs()
+    if quick:
+        lits = rng.sample(lits, 220) + [p for p in lits if "* 0" in p or "0 *" in p][:40]
+    sources += [("handlit%d" % i, s) for i, s in enumerate(lits)]
     sources += [(nm + "-annotated", s) for nm, s in annotated]
     sources += [(nm + "-inferred", strip_annotations(rng, s)) for nm, s in annotated]
     sources += [(nm, s) for nm, s in PC.corpus_sources()[:60]]
@@ -117,6 +140,7 @@ def run(ck):
                          key=known_key(rec))
     # semantic agreement of accepted programs that rely on inference (a type/wire divergence shows as a wrong value)
     issues, st2 = PC.compare([r for r in recs if r["name"].endswith("-inferred") or r["name"].startswith("hand")])
+    issues = [i for i in issues if i[3] != "missed-panic" or True]
     for rec, cfg, k, kind, mres, r in issues:
         if kind in ("wrong-value", "eval-crash", "config-failed"):
             ck.violation(f"accepted program relying on literal inference computes a wrong result: {kind} ({cfg})",
@@ -140,13 +164,17 @@ def run(ck):
     return ck.finish(level="other", trusted=COMMON_TRUSTED + ["typed-AST exporter (harness/src/prog.rs)"])
 
 
+# an integer literal without a type suffix in expression position (not a tuple index, not an array size)
+UNSUFFIXED = re.compile(r"(?<![\w.])(?<!; )\d+(?!\w)")
+
+
 def known_key(rec):
     """classes of genuine defects recorded in known_findings.json (not repaired: the only small
     repair breaks four tests of the unedited suite that depend on the behaviour)"""
     ig = rec.get("ig")
     if ig is not None and sum(int(x) for x in ig[len("(ig"):-1].split()) == 0:
         return "c05-zero-input-bits"
-    if rec.get("wt") is False:
+    if rec.get("wt") is False and UNSUFFIXED.search(re.sub(r"//[^\n]*", "", rec.get("src", ""))):
         # the checker returned a typed tree in which a value's static type and the width of the wires
         # bound to it disagree (an unsuffixed literal typed after it was bound)
         return "c05-literal-width-divergence"
